@@ -26,6 +26,10 @@ CLAIMS = {
          "kind; TLC checks ok => interface relations of module WpIface (vault of the pool for that token, mint, position/tick array/oracle of the pool, reward vault of the index, "
          "token program owning the mint, memo program), two-hop distinct pools sharing the intermediate mint",
          "quick samples 10 substitutes per slot, thorough substitutes every candidate (exhaustive over the prepared world)", "4 C15"),
+ "C16": ("TLC checks the transfer-fee contracts on a complete toy domain (MC_TransferFee) + evaluates ExclOK/InclOK on recorded calls of the Anchor and Pinocchio functions (boundary grid, "
+         "both epoch schedules, fee extension at different TLV positions) + trace validation of swap_v2 / increase / decrease v2 on transfer-fee pools where the real Token-2022 "
+         "processor withholds the fee (vault receives >= curve amount, smallest request, thresholds on actual amounts, event fields)",
+         "by-token-amounts / reposition / two-hop with transfer fees are exercised by the histories but only their common invariants (C01-style) are checked, not the per-transfer contract", "4 C16"),
  "C05": ("TLC model checking of LiqSum/TickSums/TickInit on the toy instance + the same invariants evaluated by TLC on the projected state after every "
          "recorded instruction (both tick-array encodings, Pinocchio handlers)", "as C01", "4 C05"),
  "C06": ("TLC model checking of StepsOK/SplitExact action properties on the toy instance + trace validation: per-step fee formula, protocol cut, growth "
